@@ -144,6 +144,14 @@ def lts_single_step(kinds, maxlen, maxparam, bats=("u", "b"), include_bad=True, 
                             cases.append("%s dyninit %s %d %s :: d:%s ; D" % (kind, bat, p, vec(l), d))
                         if "dynamic" in flavs:
                             cases.append("%s dynamic %s - %s :: l:%d ; D ; d:%s ; D" % (kind, bat, vec(l), p, d))
+                    if "dyninit" in flavs and bat == "u":
+                        # a source diff, ONE poll (which may hand out the first of two diffs and park
+                        # the second), a parameter change, then drain: the parked diff must come first
+                        for d in ds:
+                            if ok_in(d, n):
+                                for q in range(maxparam + 1):
+                                    if q != p:
+                                        cases.append("%s dyninit u %d %s :: d:%s ; p ; l:%d ; D" % (kind, p, vec(l), d, q))
                     for q in range(maxparam + 1):
                         if "dyninit" in flavs:
                             cases.append("%s dyninit %s %d %s :: l:%d ; D" % (kind, bat, p, vec(l), q))
@@ -989,7 +997,34 @@ def own_cases(rng, n):
             if not in_txn and r < 0.25:
                 ops.append(rng.choice(("oset(%d)" % rng.randrange(30), "otake", "oupdate(%d)" % rng.randrange(30), "osub",
                                        "opoll(%d)" % rng.randrange(3), "onext(%d)" % rng.randrange(3), "oshare", "oclone",
-                                       "odrop", "odropsub(%d)" % rng.randrange(3), "dropdiffs")))
+                                       "odrop", "odropsub(%d)" % rng.randrange(3), "dropdiffs", "oweak", "oweak", "odropweak",
+                                       "oupgrade", "otask(%d)" % rng.randrange(3), "otask(%d)" % rng.randrange(3), "osub")))
+        if rng.random() < 0.35:
+            # the observable's whole life cycle with a subscriber owned by its own waker and a weak
+            # reference that may outlive the last owner
+            seq = ["osub", "osub", "oshare"]
+            if rng.random() < 0.5:
+                seq.append("oclone")
+            mid = ["oweak", "otask(%d)" % rng.randrange(2), "otask(%d)" % rng.randrange(2), "oset(%d)" % rng.randrange(30)]
+            rng.shuffle(mid)
+            seq += mid[:rng.randrange(2, 5)]
+            seq += ["odrop", "odrop", "odrop"]
+            if rng.random() < 0.3:
+                seq.append("oupgrade")
+            seq += ["odropweak", "odropweak"][:rng.randrange(0, 3)]
+            at = rng.randrange(len(ops) + 1)
+            if "tb" in ops[:at] and ("tc" not in ops[:at] and "td" not in ops[:at]):
+                at = len(ops)
+            # never inside an open transaction
+            depth = 0
+            for i, o in enumerate(ops[:at]):
+                if o == "tb":
+                    depth = 1
+                elif o in ("tc", "td"):
+                    depth = 0
+            if depth:
+                at = len(ops)
+            ops[at:at] = seq
         cases.append(head + " :: " + " ; ".join(ops))
     return cases
 
